@@ -118,7 +118,7 @@ pub fn run(ctx: &mut Ctx) {
         }
     }
     ctx.mark_exhaustive("all-first-characters", "64 armouring characters x {unfragmented long, one-character payload, tagged '$' VDO, two-fragment group, first of nine} x decode {off, on}");
-    let n = ctx.tier.pick(20_000, 600_000);
+    let n = ctx.tier.pick(120_000, 600_000);
     let strat = (wellformed_spec(), message_chars(LenMode::Standard), any::<bool>(), any::<bool>()).prop_map(|(mut s, (chars, fill), use_msg, decode)| {
         if use_msg {
             s.payload = chars;
